@@ -114,21 +114,32 @@ def exprs():
     return E
 
 
-def rows_for(L):
+def rows_for(L, nulls=None):
+    """nulls = None: every column cycles through its domain (a NULL in every 64-row bitmap word);
+    nulls = set of row positions: NULL (in every column) only there, every other row is NULL-free - so that a bitmap
+    word WITH a NULL is followed or preceded by words WITHOUT any"""
     off = (L * 7) % 36
     out = []
     for i in range(L):
         j = i + off
-        out.append({"i": i, "a": D[j % 6], "b": D[(j // 6) % 6], "s": S[(j * 5 + 1) % 6], "u": S[(j // 3) % 6], "p": P[j % 3], "q": P[(j // 3) % 3]})
+        if nulls is None:
+            out.append({"i": i, "a": D[j % 6], "b": D[(j // 6) % 6], "s": S[(j * 5 + 1) % 6], "u": S[(j // 3) % 6], "p": P[j % 3], "q": P[(j // 3) % 3]})
+        elif i in nulls:
+            out.append({"i": i, "a": None, "b": None, "s": None, "u": None, "p": None, "q": None})
+        else:
+            out.append({"i": i, "a": D[1 + j % 5], "b": D[1 + (j // 5) % 5], "s": S[1 + (j * 5 + 1) % 5], "u": S[1 + (j // 3) % 5], "p": P[1 + j % 2], "q": P[1 + (j // 2) % 2]})
     return out
+
+
+SPARSE = {"n5": {5}, "n69": {69}, "n5+133": {5, 133}, "n63+64": {63, 64}, "n127": {127}}
 
 
 def lens(tier):
     return [1, 36, 63, 64, 65, 130] if tier == "quick" else list(range(0, 201, 1))
 
 
-def script(L, engine, E):
-    rows = rows_for(L)
+def script(L, engine, E, nulls=None):
+    rows = rows_for(L, nulls)
     steps = [{"sql": "create table t(i int, a int, b int, s varchar, u varchar, p boolean, q boolean)"}]
     if rows:
         steps.append({"sql": "insert into t values " + ", ".join("(" + ", ".join(U.sql_lit(r[k]) for k in ("i", "a", "b", "s", "u", "p", "q")) + ")" for r in rows)})
@@ -258,7 +269,7 @@ def run(tier, seed):
     E = exprs()
     chk = core.Check("C14", tier, "exploration",
                      f"{len(E)} scalar expressions (arithmetic, comparison, AND/OR/NOT, IS NULL, CASE, IN, BETWEEN, LIKE, ||, replace, CAST) over columns cycling through boundary domains with NULLs, "
-                     f"batch lengths {lens(tier) if tier == 'quick' else '0..200'} x {{memory (one chunk), disk (64-byte blocks)}}; each as projection and, for booleans, as WHERE / (e) OR q / NOT (e) / (e) AND ..; "
+                     f"batch lengths {lens(tier) if tier == 'quick' else '0..200'} x {{memory (one chunk), disk (64-byte blocks)}}, plus {len(SPARSE)} sparse NULL layouts (NULLs in one 64-row bitmap word only, the other words NULL-free); each as projection and, for booleans, as WHERE / (e) OR q / NOT (e) / (e) AND ..; "
                      f"row-by-row comparison with a scalar three-valued reference; plus {len(extreme_exprs())} nested arithmetic/cast expressions over all pairs of {{NULL,0,+-1,INT MIN,INT MAX}} (defined rows in one batch == reference, every overflowing row alone must be an error); plus overflow/out-of-range cases that must be errors, and all binary constant expressions over {{null,0,1,-1,2}} / {{null,true,false}}: folded value == run-time value == reference; "
                      "a case = (expression, form, batch length, engine); non-trivial = batch has >= 1 row", seed)
     items = []
@@ -266,10 +277,16 @@ def run(tier, seed):
         for engine in ("mem", "disk"):
             if tier == "quick" and engine == "disk" and L not in (36, 130):
                 continue
-            items.append((L, engine) + script(L, engine, E))
-    res = runner.run_many("sql", [it[2] for it in items], timeout=600, progress=50)
-    for (L, engine, s, n0, rows), r in zip(items, res):
+            items.append((L, engine, None) + script(L, engine, E))
+    # sparse NULL patterns: 200-row batches (memory: one chunk) whose NULLs sit in one bitmap word only
+    for name, nulls in SPARSE.items():
+        for L in ((200,) if tier == "quick" else (130, 192, 200)):
+            items.append((L, "mem", name) + script(L, "mem", E, nulls))
+    res = runner.run_many("sql", [it[3] for it in items], timeout=600, progress=50)
+    for (L, engine, pattern, s, n0, rows), r in zip(items, res):
         base = {"L": L, "engine": engine}
+        if pattern:
+            base["nulls"] = pattern
         if r.get("abort"):
             chk.fail(core.case_id(base), "abort", base, r)
             continue
